@@ -523,3 +523,35 @@ Proof.
     rewrite rev_app_distr, rev_involutive. reflexivity. }
   unfold classify. rewrite St. reflexivity.
 Qed.
+
+(* ------------------------------------------------------------------ *)
+(* a commit is its full id: [index_of] (repo.commit(hexsha), the lookup behind every head and every tag read from
+   the ref files) compares whole ids *)
+
+Lemma index_of_sound sha : forall shas k, index_of sha shas = Some k -> nth_error shas k = Some sha.
+Proof.
+  induction shas as [|y r IH]; cbn; intros k H; [discriminate|].
+  destruct (list_eqb sha y) eqn:E.
+  - injection H as <-. apply list_eqb_eq in E. now subst.
+  - destruct (index_of sha r) as [j|] eqn:Ej; cbn in H; [|discriminate].
+    injection H as <-. cbn. now apply IH.
+Qed.
+
+Lemma index_of_complete sha : forall shas k,
+  NoDup shas -> nth_error shas k = Some sha -> index_of sha shas = Some k.
+Proof.
+  induction shas as [|y r IH]; intros k ND H.
+  - destruct k; discriminate.
+  - inversion ND as [|? ? Hnin ND']; subst. cbn. destruct k as [|k]; cbn in H.
+    + injection H as ->. now rewrite list_eqb_refl.
+    + destruct (list_eqb sha y) eqn:E.
+      * apply list_eqb_eq in E. subst y. exfalso. apply Hnin. eapply nth_error_In; eassumption.
+      * now rewrite (IH k ND' H).
+Qed.
+
+Lemma index_of_differs a b : forall shas i j,
+  index_of a shas = Some i -> index_of b shas = Some j -> a <> b -> i <> j.
+Proof.
+  intros shas i j Ha Hb Hne E. subst j.
+  apply index_of_sound in Ha. apply index_of_sound in Hb. congruence.
+Qed.
